@@ -554,6 +554,11 @@ func runAlertRules(c *Ctx) {
 					}
 				}
 			}
+			if !guarded && informedRoutes != nil {
+				// or the routes it is appended for were filtered beforehand: the list the route id is taken from only ever
+				// receives routes r under !informedRoutes[r], tested after the selector loop
+				guarded = fallbackRoutesPrefiltered(fn, sel, informedRoutes)
+			}
 			c.Check(guarded, "ALERT", fname, "route fallback only for routes not informed explicitly", p.ipos(call), "append dominated by !informedRoutes[route], tested after all selectors were seen", "a route-only trip descriptor adds a route entity although the alert may already inform that route explicitly (the test must be made after the selector loop, whatever the selector order)")
 		}
 	}
@@ -669,4 +674,107 @@ func iterationPaths(l *Loop) []pathFacts {
 		out = append(out, pf)
 	})
 	return out
+}
+
+// fallbackRoutesPrefiltered: every RouteID stored into an informed entity outside the selector loop is (a copy of) an
+// element of one list of route ids, and every append to that list adds a value r in a block that lies after the
+// selector loop and is dominated by the outcome !informedRoutes[r].
+func fallbackRoutesPrefiltered(fn *ssa.Function, sel *Loop, informedRoutes ssa.Value) bool {
+	var lists []ssa.Value
+	n := 0
+	for _, b := range fn.Blocks {
+		if sel.Blocks[b] {
+			continue
+		}
+		for _, in := range b.Instrs {
+			st, ok := in.(*ssa.Store)
+			if !ok {
+				continue
+			}
+			fa, ok := st.Addr.(*ssa.FieldAddr)
+			if !ok || typeName(fa.X.Type()) != "gtfs.AlertInformedEntity" || fieldName(fa.X.Type(), fa.Field) != "RouteID" {
+				continue
+			}
+			n++
+			cell, ok := st.Val.(*ssa.Alloc)
+			if !ok {
+				return false
+			}
+			for _, sv := range cellStores(cell) {
+				ld, ok := sv.(*ssa.UnOp)
+				if !ok {
+					return false
+				}
+				ia, ok := ld.X.(*ssa.IndexAddr)
+				if !ok {
+					return false
+				}
+				lists = append(lists, ia.X)
+			}
+		}
+	}
+	if n == 0 || len(lists) == 0 {
+		return false
+	}
+	seen := map[ssa.Value]bool{}
+	nApp := 0
+	var chain func(v ssa.Value, d int) bool
+	chain = func(v ssa.Value, d int) bool {
+		if seen[v] {
+			return true
+		}
+		seen[v] = true
+		if d > 30 {
+			return false
+		}
+		switch x := v.(type) {
+		case *ssa.Const:
+			return x.Value == nil
+		case *ssa.MakeSlice:
+			k, isC := constInt(x.Len)
+			return isC && k == 0
+		case *ssa.Phi:
+			for _, e := range x.Edges {
+				if !chain(e, d+1) {
+					return false
+				}
+			}
+			return true
+		case *ssa.UnOp:
+			if al, ok := x.X.(*ssa.Alloc); ok {
+				for _, sv := range cellStores(al) {
+					if !chain(sv, d+1) {
+						return false
+					}
+				}
+				return true
+			}
+		case *ssa.Call:
+			if !isBuiltin(x, "append") {
+				return false
+			}
+			nApp++
+			if sel.Blocks[x.Block()] || !sel.Header.Dominates(x.Block()) {
+				return false
+			}
+			elems := variadicElems(x.Call.Args[1])
+			if len(elems) != 1 {
+				return false
+			}
+			okG := false
+			for _, ce := range dominatingConds(x.Block()) {
+				if lk, isLk := ce.Cond.(*ssa.Lookup); isLk && lk.X == informedRoutes && !ce.Val && lk.Index == elems[0] && !sel.Blocks[lk.Block()] {
+					okG = true
+				}
+			}
+			return okG && chain(x.Call.Args[0], d+1)
+		}
+		return false
+	}
+	for _, l := range lists {
+		if !chain(l, 0) {
+			return false
+		}
+	}
+	return nApp > 0
 }
